@@ -30,9 +30,9 @@ func init() {
 	register("repl-fault", replFaultCmd)
 }
 
-const faultyID = "faulty-client:1"
+const replFaultyID = "faulty-client:1"
 
-type faultClient struct {
+type replFaultClient struct {
 	mode   string
 	mu     sync.Mutex
 	raw    net.Conn
@@ -46,8 +46,8 @@ type faultClient struct {
 //   noack   reads everything, never acknowledges
 //   slow    reads one message every 100 ms
 //   cut     reads until ~1 MB arrived, then resets the TCP connection
-func attachFaulty(addr, mode string) (*faultClient, error) {
-	fc := &faultClient{mode: mode}
+func replAttachFaulty(addr, mode string) (*replFaultClient, error) {
+	fc := &replFaultClient{mode: mode}
 	dial := func(ctx context.Context, a string) (net.Conn, error) {
 		c, err := (&net.Dialer{}).DialContext(ctx, "tcp", a)
 		if err == nil {
@@ -68,7 +68,7 @@ func attachFaulty(addr, mode string) (*faultClient, error) {
 	sctx, scancel := context.WithCancel(context.Background())
 	fc.cancel = scancel
 	stream, err := rproto.NewWALReplicationServiceClient(conn).StreamWAL(sctx, &rproto.WALStreamRequest{
-		StartSequence: 0, ProtocolVersion: 1, CompressionSupported: false, ListenerAddress: faultyID})
+		StartSequence: 0, ProtocolVersion: 1, CompressionSupported: false, ListenerAddress: replFaultyID})
 	if err != nil {
 		return nil, err
 	}
@@ -110,9 +110,9 @@ func attachFaulty(addr, mode string) (*faultClient, error) {
 	return fc, nil
 }
 
-func fillerKey(i int) []byte { return []byte(fmt.Sprintf("fill-%03d", i)) }
+func replFillerKey(i int) []byte { return []byte(fmt.Sprintf("fill-%03d", i)) }
 
-func fillerVal(seed uint64, n, size int) []byte {
+func replFillerVal(seed uint64, n, size int) []byte {
 	b := make([]byte, size)
 	x := seed*1000003 + uint64(n)*7919 + 1
 	for i := range b {
@@ -122,20 +122,21 @@ func fillerVal(seed uint64, n, size int) []byte {
 	return b
 }
 
-func digestScan(e *engine.EngineFacade) (string, int, error) {
-	it, err := e.GetIterator()
-	if err != nil {
-		return "", 0, err
-	}
+func replDigestScan(e *engine.EngineFacade) (string, int, error) {
+	// point reads of every key the scenario writes (values of a scan over several memtables are another property's subject)
 	h := sha1.New()
 	n := 0
-	for it.SeekToFirst(); it.Valid(); it.Next() {
-		if it.IsTombstone() {
+	for i := 0; i < 16; i++ {
+		v, err := e.Get(replFillerKey(i))
+		if isNotFound(err) {
 			continue
 		}
-		h.Write(it.Key())
+		if err != nil {
+			return "", 0, err
+		}
+		h.Write(replFillerKey(i))
 		h.Write([]byte{0})
-		h.Write(it.Value())
+		h.Write(v)
 		h.Write([]byte{1})
 		n++
 	}
@@ -173,7 +174,7 @@ func replFaultCmd(args []string) int {
 	pc := replication.DefaultPrimaryConfig()
 	pc.HeartbeatConfig = &replication.HeartbeatConfig{Interval: time.Duration(*hbInt) * time.Second,
 		Timeout: time.Duration(*hbTimeout) * time.Second, SendEmptyResponses: true}
-	paddr := freeAddr()
+	paddr := replFreeAddr()
 	cc := CfgClass{MemTableSize: 8 << 20, MaxMemTables: 4, SyncMode: 0, CompactSec: 3600}
 	prim, err := startReplPrimary(filepath.Join(*dir, "primary"), paddr, &cc, pc)
 	if err != nil {
@@ -181,7 +182,7 @@ func replFaultCmd(args []string) int {
 	}
 	var repl *replNode
 	if *healthy > 0 {
-		repl, err = startReplReplica(filepath.Join(*dir, "replica"), freeAddr(), paddr, &cc)
+		repl, err = startReplReplica(filepath.Join(*dir, "replica"), replFreeAddr(), paddr, &cc)
 		if err != nil {
 			return fail("replica: " + err.Error())
 		}
@@ -221,12 +222,12 @@ func replFaultCmd(args []string) int {
 	}
 	put := func() error {
 		nput++
-		v := fillerVal(*seed, nput, *valKB<<10)
+		v := replFillerVal(*seed, nput, *valKB<<10)
 		total += len(v)
-		return prim.eng.Put(fillerKey(nput%16), v)
+		return prim.eng.Put(replFillerKey(nput%16), v)
 	}
 	get := func() error {
-		_, err := prim.eng.Get(fillerKey(nput % 16))
+		_, err := prim.eng.Get(replFillerKey(nput % 16))
 		if isNotFound(err) {
 			return nil
 		}
@@ -239,9 +240,9 @@ func replFaultCmd(args []string) int {
 		}
 		for j := 0; j < 2; j++ {
 			nput++
-			v := fillerVal(*seed, nput, *valKB<<10)
+			v := replFillerVal(*seed, nput, *valKB<<10)
 			total += len(v)
-			if err := tx.Put(fillerKey(nput%16), v); err != nil {
+			if err := tx.Put(replFillerKey(nput%16), v); err != nil {
 				tx.Rollback()
 				return err
 			}
@@ -280,9 +281,9 @@ func replFaultCmd(args []string) int {
 		deadline = 5 * time.Second
 	}
 	log.ev(map[string]interface{}{"e": "note", "baseline_max_us": worst.Microseconds(), "deadline_ms": deadline.Milliseconds()})
-	var fc *faultClient
+	var fc *replFaultClient
 	if *mode != "none" {
-		fc, err = attachFaulty(paddr, *mode)
+		fc, err = replAttachFaulty(paddr, *mode)
 		if err != nil {
 			return fail("cannot attach the faulty client: " + err.Error())
 		}
@@ -309,7 +310,7 @@ func replFaultCmd(args []string) int {
 			_, _, reps, _, _ := prim.mgr.GetNodeInfo()
 			dropped = true
 			for _, r := range reps {
-				if r.Address == faultyID {
+				if r.Address == replFaultyID {
 					dropped = false
 				}
 			}
@@ -325,8 +326,8 @@ func replFaultCmd(args []string) int {
 		var pd, rd string
 		var pn, rn int
 		for time.Since(t0) < 60*time.Second && !ok {
-			pd, pn, _ = digestScan(prim.eng)
-			rd, rn, _ = digestScan(repl.eng)
+			pd, pn, _ = replDigestScan(prim.eng)
+			rd, rn, _ = replDigestScan(repl.eng)
 			ok = pd == rd
 			if !ok {
 				time.Sleep(200 * time.Millisecond)
